@@ -59,6 +59,12 @@ CLAIMED.update({
             "Seeded search over generator specs, consumption placements and finalisation instants. 22 open known findings (one root cause: the stream body runs in the consumer's context) are listed by rule and consumption mode; any other rule/mode is reported as a violation.", SCOPE_NOTE),
 })
 
+CLAIMED.update({
+    "C18": ("exploration", "4 (C18)", "deterministic simulation: loop.run_in_executor routed to baton-passed real threads (the scheduler decides when the worker runs and how long it stays parked relative to a heartbeat task); transparency / thread identity / context carried-not-leaked / traced metrics oracle",
+            "Seeded search over wrapper kinds, signature shapes, outcomes, call-site nestings and worker hand-over schedules; metadata (__name__/__doc__/__wrapped__) of every helper decorator checked statically in each run.",
+            "Real OS pre-emption inside the wrapped function is not modelled (exactly one of loop thread / worker runs at a time); isolation of context changes is only demanded of the executor wrappers."),
+})
+
 NOT_YET = {
 }
 
